@@ -48,25 +48,27 @@ Definition after_read (p : policy) (valid : nat) : policy :=
 Definition overfull (p : policy) (valid : nat) : bool :=
   match p with Blocking cap => Nat.ltb cap valid | Async => false end.
 
-Record conn := mkConn { c_policy : policy; c_buf : bytes }.
+(* c_state: the builder state parked between receive calls (mod.rs: ResponseFieldCache.1) —
+   Initial after a complete response, the unfinished response after an error or a cancelled call *)
+Record conn := mkConn { c_policy : policy; c_buf : bytes; c_state : bstate }.
 
 Definition reader_bytes (r : reader) : nat := length (concat (chunks r)).
 
 (* one receive call *)
 Fixpoint recv_loop (fuel : nat) (p : policy) (st : bstate) (buf : bytes) (r : reader)
   : outcome * conn * reader :=
-  if overfull p (length buf) then (Panic, mkConn p buf, r) else
+  if overfull p (length buf) then (Panic, mkConn p buf st, r) else
   match bparse_all st buf with
-  | (_, rest, Complete resp) => (Resp resp, mkConn p rest, r)
-  | (_, rest, BInvalid) => (ErrInvalid, mkConn p rest, r)
+  | (st', rest, Complete resp) => (Resp resp, mkConn p rest st', r)
+  | (st', rest, BInvalid) => (ErrInvalid, mkConn p rest st', r)
   | (st', rest, NeedMore) =>
     match fuel with
-    | O => (OutOfFuel, mkConn p rest, r)
+    | O => (OutOfFuel, mkConn p rest st', r)
     | S f =>
       match read (space_of p (length rest)) r with
-      | (Some k, _, r') => (ErrIo k, mkConn p rest, r')
+      | (Some k, _, r') => (ErrIo k, mkConn p rest st', r')
       | (None, [], r') =>
-        ((if in_progress st' || negb (beq rest []) then ErrEof else CleanEof), mkConn p rest, r')
+        ((if in_progress st' || negb (beq rest []) then ErrEof else CleanEof), mkConn p rest st', r')
       | (None, data, r') =>
         let buf' := rest ++ data in
         recv_loop f (after_read p (length buf')) st' buf' r'
@@ -75,7 +77,7 @@ Fixpoint recv_loop (fuel : nat) (p : policy) (st : bstate) (buf : bytes) (r : re
   end.
 
 Definition receive (c : conn) (r : reader) : outcome * conn * reader :=
-  recv_loop (S (reader_bytes r)) (c_policy c) Initial (c_buf c) r.
+  recv_loop (S (reader_bytes r)) (c_policy c) (c_state c) (c_buf c) r.
 
 Inductive connect_outcome :=
   | Connected (version : bytes) (c : conn)
@@ -98,7 +100,7 @@ Fixpoint connect_loop (fuel : nat) (p : policy) (buf : bytes) (r : reader) : con
       let buf' := buf ++ data in
       let p' := after_read p (length buf') in
       match p_greeting buf' with
-      | ROk n v => (Connected v (mkConn p' (skipn n buf')), r')
+      | ROk n v => (Connected v (mkConn p' (skipn n buf') Initial), r')
       | RIncomplete => connect_loop f p' buf' r'
       | RError | RFailure => (ConnInvalid, r')
       end
